@@ -728,6 +728,9 @@ class SigmaCorrelationRule(SigmaRuleBase, ProcessingItemTrackingMixin):
         if self.condition is not None:
             dc["condition"] = self.condition.to_dict()
 
+        if self.generate:  # False is the default
+            dc["generate"] = self.generate
+
         d["correlation"] = dc
 
         return d
